@@ -257,6 +257,9 @@ def change_base(chars, base_from, base_to, min_length=0, output_even=None, outpu
                 pos = code_str_from.index(item)
             except ValueError:
                 try:
+                    # Base58 is case-sensitive, other alphabets accept upper case input
+                    if base_from == 58:
+                        raise ValueError
                     pos = code_str_from.index(item.lower())
                 except ValueError:
                     raise EncodingError("Unknown character %s found in input string" % item)
